@@ -33,6 +33,9 @@ pub fn usk_op_name(op: &UskOp) -> &'static str {
         UskOp::Truncate { .. } => "truncate",
         UskOp::ShiftNameBorder { .. } => "shift-name-secret-border",
         UskOp::SplitChain { .. } => "split-chain",
+        UskOp::AddEmptyRight { .. } => "add-right-without-secret",
+        UskOp::MoveSecretToEnd { .. } => "move-secret-to-end-of-other-chain",
+        UskOp::SwapSecretsAcross { .. } => "swap-secrets-across-rights",
     }
 }
 
@@ -327,6 +330,41 @@ pub fn apply_usk_op(w: &mut World, user: usize, bytes: &[u8], op: &UskOp) -> Opt
             let k = 1 + *k % (s.len() - 1);
             p.rights[*i] = (n.clone(), s[..k].to_vec());
             p.rights.insert(*i + 1, (n, s[k..].to_vec()));
+        }
+        UskOp::AddEmptyRight { other_user, j, raw } => {
+            let name = match other_usk_bytes(w, *other_user).and_then(|b| UskParts::from(&b)) {
+                Some(o) if *other_user != user && !o.rights.is_empty() => o.rights[*j % o.rights.len()].0.clone(),
+                _ => raw.clone(),
+            };
+            if p.rights.iter().any(|r| r.0 == name) {
+                return None;
+            }
+            p.rights.push((name, vec![]));
+        }
+        UskOp::MoveSecretToEnd { from, to } => {
+            if *from == *to || *from >= p.rights.len() || *to >= p.rights.len() {
+                return None;
+            }
+            if p.rights[*from].1.len() < 2 {
+                return None;
+            }
+            let s = p.rights[*from].1.pop()?;
+            p.rights[*to].1.push(s);
+        }
+        UskOp::SwapSecretsAcross { i, k, j, l } => {
+            if *i == *j || *i >= p.rights.len() || *j >= p.rights.len() {
+                return None;
+            }
+            if *k >= p.rights[*i].1.len() || *l >= p.rights[*j].1.len() {
+                return None;
+            }
+            let a = p.rights[*i].1[*k].clone();
+            let b = p.rights[*j].1[*l].clone();
+            if a == b {
+                return None;
+            }
+            p.rights[*i].1[*k] = b;
+            p.rights[*j].1[*l] = a;
         }
         UskOp::ShiftNameBorder { i, k } => {
             // Move the first k bytes of the MACed part of the first secret into the right's name
